@@ -230,11 +230,15 @@ def run_impl(spec):
         ll_in_batch = float(joker.marginal_ln_likelihood(data, batch, in_memory=True)[2])
         batch2 = batch[[1, 0, 2]]
         ll_in_batch2 = float(joker.marginal_ln_likelihood(data, batch2, in_memory=True)[2])
+        # ... and as the LAST of five rows through the default (cache-file) path cut into two and into three batches
+        # (5 is a multiple of neither): the value comes back at its own position
+        batch5 = batch[[0, 1, 0, 1, 2]]
+        ll_file = tuple(float(np.asarray(joker.marginal_ln_likelihood(data, batch5, n_batches=nb))[4]) for nb in (2, 3))
         helper = joker._make_joker_helper(data)
         all_data, ids, trend_M = validate_prepare_data(data, prior.poly_trend, prior.n_offsets)
         row, _ = smp.pack(units=helper.internal_units, names=helper.packed_order)
         ll_test = float(helper.test_likelihood_worker(np.ascontiguousarray(row[0], dtype=float)))
-    out = dict(ll=ll, ll_in_batch=(ll_in_batch, ll_in_batch2), ll_test=ll_test, a=np.array(helper.a), Ainv=np.array(helper.Ainv), A=np.array(helper.A), b=np.array(helper.b), B=np.array(helper.B),
+    out = dict(ll=ll, ll_in_batch=(ll_in_batch, ll_in_batch2) + ll_file, ll_test=ll_test, a=np.array(helper.a), Ainv=np.array(helper.Ainv), A=np.array(helper.A), b=np.array(helper.b), B=np.array(helper.B),
                Binv=np.array(helper.Binv), row=np.asarray(row[0], float), all_data=all_data, trend_M=np.asarray(trend_M, float), prior=prior, helper=helper,
                data=data, smp=smp, joker=joker)
     du = all_data.rv.unit
